@@ -68,13 +68,21 @@ def make_instances(rng, preds, text, n):
     vals = sorted(set(nums + ["1", "2", "3"]) | (near if rng.random() < 0.5 else set()), key=lambda x: int(x))
     mixes = [vals[:5], ["0", "-1", "2", "5"], vals[:3] + ids[:1], ["1", "2", "4", "7", "-3"], ["1"], vals[-4:],
              rng.sample(vals, min(len(vals), 4)), ["-2", "2", "3", "5"]]
+    # non-injective arithmetic (|x|, x\\k, x/k, x**2): values that collide under it must occur together
+    collide = any(op in text for op in ("|", "\\", "/", "**"))
+    if collide:
+        mixes += [["-2", "2", "-1", "1"], ["-2", "2", "3", "5"], ["-3", "3", "1", "4"]]
     out = [""]
     preds = sorted(preds)
     for k in range(n - 1):
         dom = rng.choice(mixes)
         if k >= 4 and k % 2 == 0:
             # dense instances over a tiny domain: joins succeed, ties and "all values present" situations occur
-            dom = rng.choice([["1", "2"], ["1", "2", "3"], ["0", "1"], (ids[:1] or ["a"]) + ["1", "2"]])
+            dom = rng.choice([["1", "2"], ["1", "2", "3"], ["0", "1"], (ids[:1] or ["a"]) + ["1", "2"]]
+                             + ([["-2", "2", "3"], ["-1", "1", "2"], ["-2", "2", "5", "3"]] * 2 if collide else [])
+                             # dense AND boundary-aware: tiny domains straddling a constant of the program
+                             + [[str(int(c) - 1), str(int(c) + 1), "1"] for c in nums[-3:]]
+                             + [[str(int(c)), str(int(c) + 2), "1", "2"] for c in nums[-3:]])
             facts = []
             for name, ar in preds:
                 if ar == 0:
